@@ -317,6 +317,10 @@ def run_case(case):
                         elif what == "setitem":
                             removed, added = [idx_of[id(c_[a[0]])]], [a[1]]
                             c_[a[0]] = pool[a[1]]
+                        elif what == "setslice":
+                            # children[:] = [...]: one event, removed = all old items, added = all new items
+                            removed, added = [idx_of[id(v_)] for v_ in c_], list(a[0])
+                            c_[:] = [pool[j_] for j_ in a[0]]
                         elif what == "dset":
                             removed, added = ([idx_of[id(c_[a[0]])]] if a[0] in c_ else []), [a[1]]
                             c_[a[0]] = pool[a[1]]
